@@ -538,4 +538,86 @@ def validateDeleteRecord (env : Env) (scope : Option Scope) (specRoles : Option 
       | some roles => dropDetails (validateSignersWithParties env msgType scope.owners scope.owners
           roles signers)
 
+/-! ### the message server (x/metadata/keeper/msg_server.go)
+
+For the other endpoints the message server looks the stored entry up, calls the `Validate…`
+function above with it, and stores the message's entry.  `AddScopeOwner` / `DeleteScopeOwner`
+do more: they run the message's `ValidateBasic`, COMPUTE the proposed owner list from the
+stored scope (`proposed := existing; proposed.AddOwners(…)` / `proposed.RemoveOwners(…)`) and
+validate with the stored scope as `existing`.  Stored scopes passed `Scope.ValidateBasic`
+(at least one owner, valid addresses and roles, no two owners with the same address and role,
+no optional owner without rollup). -/
+
+/-- `Party.ValidateBasic` (types/scope.go:419), for roles of the `PartyType` enum. -/
+def partyBasicOk (env : Env) (p : Party) : Bool := env.valid p.address && p.role != roleUNSPECIFIED
+
+/-- `ValidatePartiesAreUnique` (types/scope.go:433): no two with the same address and role. -/
+def partiesUnique : List Party → Bool
+  | [] => true
+  | p :: ps => !(ps.any fun q => p.address == q.address && p.role == q.role) && partiesUnique ps
+
+/-- `ValidatePartiesBasic` (types/scope.go:446) -/
+def validatePartiesBasic (env : Env) (ps : List Party) : Bool :=
+  !ps.isEmpty && ps.all (partyBasicOk env) && partiesUnique ps
+
+/-- `Scope.AddOwners` (types/scope.go:113): `none` = "party already exists". -/
+def addOwners (owners new : List Party) : Option (List Party) :=
+  if new.isEmpty then some owners
+  else if new.any fun n => owners.any fun o => n.address == o.address && n.role == o.role then none
+  else some (owners ++ new)
+
+/-- `Scope.RemoveOwners` (types/scope.go:131): `none` = "address does not exist in scope
+owners"; otherwise a NEW list with every owner whose address is named left out (the receiver's
+previous owner list is not touched). -/
+def removeOwners (owners : List Party) (addrs : List Addr) : Option (List Party) :=
+  if addrs.isEmpty then some owners
+  else if addrs.any fun a => !owners.any fun o => o.address == a then none
+  else some (owners.filter fun o => !addrs.contains o.address)
+
+/-- Reject classes of the owner endpoints of the message server. -/
+inductive MsgErr where
+  /-- `msg.ValidateBasic()` (msgs.go:272, :302) -/
+  | basic
+  /-- "scope not found with id" (msg_server.go:161, :197) -/
+  | notFound
+  /-- `AddOwners`: "party already exists" -/
+  | ownerExists
+  /-- `RemoveOwners`: "address does not exist in scope owners" -/
+  | ownerAbsent
+  /-- `proposed.ValidateOwnersBasic()` (scope.go:749): "at least one party is required" -/
+  | noOwners
+  /-- `ValidateUpdateScopeOwners` said no -/
+  | invalid (e : Err)
+  deriving DecidableEq, Repr
+
+/-- `msgServer.AddScopeOwner` (msg_server.go:148); on success the scope that is stored. -/
+def msgAddScopeOwner (env : Env) (stored : Option Scope) (newOwners : List Party)
+    (specRoles : List Role) (signers : List Addr) : Except MsgErr Scope :=
+  if !validatePartiesBasic env newOwners || signers.isEmpty then .error .basic
+  else match stored with
+    | none => .error .notFound
+    | some existing =>
+      match addOwners existing.owners newOwners with
+      | none => .error .ownerExists
+      | some owners =>
+        match validateUpdateScopeOwners env "AddScopeOwner" existing owners specRoles signers with
+        | .error e => .error (.invalid e)
+        | .ok _ => .ok { existing with owners := owners }
+
+/-- `msgServer.DeleteScopeOwner` (msg_server.go:184); on success the scope that is stored. -/
+def msgDeleteScopeOwner (env : Env) (stored : Option Scope) (addrs : List Addr)
+    (specRoles : List Role) (signers : List Addr) : Except MsgErr Scope :=
+  if addrs.isEmpty || addrs.any (fun a => !env.valid a) || signers.isEmpty then .error .basic
+  else match stored with
+    | none => .error .notFound
+    | some existing =>
+      match removeOwners existing.owners addrs with
+      | none => .error .ownerAbsent
+      | some owners =>
+        if owners.isEmpty then .error .noOwners
+        else
+          match validateUpdateScopeOwners env "DeleteScopeOwner" existing owners specRoles signers with
+          | .error e => .error (.invalid e)
+          | .ok _ => .ok { existing with owners := owners }
+
 end PvModel.Signers
